@@ -212,6 +212,9 @@ def run_case(case, wd, sessions=None):
     bus = [(i + 1, EPOCH + datetime.timedelta(seconds=10 * (i + 1)), d) for i, d in enumerate(busjson)]
     if ts_override:
         bus = [(o, EPOCH + datetime.timedelta(seconds=ts_override.get(str(o), secs(t))), d) for (o, t, d) in bus]
+    if case.get("subsecond"):
+        # real bus timestamps are not whole seconds (the caches store whole seconds)
+        bus = [(o, t + datetime.timedelta(microseconds=500000), d) for (o, t, d) in bus]
     world = {"bus": bus, "next": len(bus) + 1, "calls": [], "ncall": 0}
     outs = sessions["outcomes"]
 
